@@ -16,14 +16,16 @@ Proof. exact same_value_all. Qed.
 Print Assumptions C36_same_value.
 
 (* A datetime is stored as its exact millisecond instant: naive = UTC wall clock, aware = wall clock minus the zone's
-   offset AT THAT VALUE (any offset function: DST included).  Digits below one millisecond are dropped (floor). *)
+   offset AT THAT VALUE (any offset function: DST included).  Digits below one millisecond are dropped toward zero. *)
 Theorem C36_datetime_exact_ms : forall (wall : Z) (tz : option (Z -> Z)),
   exists ms, to_database CDateTime (PDatetime wall tz) = Some (PInt ms) /\
-             1000 * ms <= wall - tz_off tz wall < 1000 * ms + 1000 /\
-             (forall k, wall - tz_off tz wall = 1000 * k -> ms = k).
+             (forall k, wall - tz_off tz wall = 1000 * k -> ms = k) /\
+             (0 <= wall - tz_off tz wall -> 1000 * ms <= wall - tz_off tz wall < 1000 * ms + 1000) /\
+             (wall - tz_off tz wall <= 0 -> 1000 * ms - 1000 < wall - tz_off tz wall <= 1000 * ms).
 Proof.
-  intros wall tz. exists (datetime_to_db wall tz). split; [reflexivity|]. split; [apply datetime_floor|].
-  intros k Hk. apply datetime_exact. exact Hk.
+  intros wall tz. exists (datetime_to_db wall tz). split; [reflexivity|]. split.
+  - intros k Hk. apply datetime_exact. exact Hk.
+  - exact (datetime_bracket wall tz).
 Qed.
 Print Assumptions C36_datetime_exact_ms.
 
@@ -54,6 +56,6 @@ Example C36_nonvacuous :
   let v := PDict [(PStr [97; 98], PList [PTuple [PDatetime 1593604800123000 (Some zone_dst); PDatetime 86400000001 None;
                                                    PBytes [0; 255]; PInt 16777217]])] in
   valid c v = true /\ same_value c v = true /\
-  to_database c v = Some (PDict [(PStr [97; 98], PList [PTuple [PInt 1593597600123; PInt 2147483649; PByteArray [0; 255];
+  to_database c v = Some (PDict [(PStr [97; 98], PList [PTuple [PInt 1593597600123; PInt 2147483649; PBytes [0; 255];
                                                                 PFloat 4503599895805952 (-28)]])]).
 Proof. vm_compute. repeat split; reflexivity. Qed.
